@@ -140,7 +140,8 @@ CloseFields(ev) == ev.cid = cur
 Listed(ev, i, r) == [idx |-> ev.i, core |-> ev.core, reach |-> ev.reach] = Obs(i, r)
 \* the seed-list inserts / reachability updates logged for the step of core point o:
 \* exactly the samples whose reachability the model changes, with the model's values
-UpdFields(ev, o, done) ==
+\* (base = size of the seed list before the first insert; every insert reports the size it produced)
+UpdFields(ev, o, done, base) ==
   LET new == Upd(o, done, rch)
       ch  == {j \in 1..MN : new[j] # rch[j]}
   IN /\ Len(ev.upd) = Cardinality(ch)
@@ -149,12 +150,13 @@ UpdFields(ev, o, done) ==
           LET j == ev.upd[k].j + 1 IN
           /\ ev.upd[k].r = Def(new[j])
           /\ ev.upd[k].isnew <=> rch[j] < 0
+          /\ ev.upd[k].nseeds = base + Cardinality({m \in 1..k : ev.upd[m].isnew})
 \* {"ev":"start","i","nn","nseeds","core","reach","upd"}: the lowest unprocessed index starts a walk
 StartFields(ev) ==
   /\ ev.i = oi - 1 /\ oi \notin processed
   /\ ev.nn = Count(oi) /\ ev.nseeds = 0
   /\ Listed(ev, oi, rch[oi])
-  /\ IF MCore(oi) THEN UpdFields(ev, oi, processed \cup {oi}) ELSE ev.upd = <<>>
+  /\ IF MCore(oi) THEN UpdFields(ev, oi, processed \cup {oi}, 0) ELSE ev.upd = <<>>
 \* {"ev":"pop",...}: a seed of minimum reachability is listed
 OPopFields(ev) ==
   LET s == ev.i + 1 IN
@@ -162,5 +164,5 @@ OPopFields(ev) ==
   /\ \A u \in seeds : rch[s] <= rch[u]
   /\ ev.nn = Count(s)
   /\ Listed(ev, s, rch[s])
-  /\ IF MCore(s) THEN UpdFields(ev, s, processed \cup {s}) ELSE ev.upd = <<>>
+  /\ IF MCore(s) THEN UpdFields(ev, s, processed \cup {s}, Cardinality(seeds) - 1) ELSE ev.upd = <<>>
 =============================================================================
